@@ -192,7 +192,7 @@ def run_tlc(module, cfg=None, workers=None, simulate=None, depth=None, seed=None
                     line.startswith("Error: Temporal properties were violated") or line.startswith("Error: Deadlock reached") \
                     or line.startswith("Error: Postcondition"):
                 capture_violation = [line]
-            elif capture_violation is not None and len(capture_violation) < 200:
+            elif capture_violation is not None and len(capture_violation) < 5000:
                 capture_violation.append(line)
             elif line.startswith("Error:") and res.error is None and capture_violation is None:
                 res.error = line
